@@ -1,1 +1,56 @@
-(* C04 — placeholder until the fault-monad theorems land (see below). *)
+(* C04 — process death or an I/O error at any point leaves a safe state. *)
+From UV Require Import Base Codec Model PMLemmas Inv Ban Handout Calls Fault FaultProofs.
+
+(* First half, calls of the running release.  For every good state of release r, every call o (and
+   the restart's own init), every k and every partial-deletion choice sub: the disk left by a process
+   death before the k-th mutating system call satisfies SB (if the next launch keeps the state at
+   all, a parsable patches_state.json satisfies I-ban and still bans everything banned before) ... *)
+Theorem C04_crash_states :
+  forall sha sigok zdec base (c : cfg) (d0 : disk) (o : op) (k : nat) (sub : N -> N),
+    stable (c_rel c) d0 -> IbanD d0 ->
+    let d' := disk_of (callM sha sigok zdec base c o (CrashAt k sub) 0%nat d0) in
+    let d'' := disk_of (initM sha sigok c (CrashAt k sub) 0%nat d0) in
+    SB (c_rel c) (bad (load_p d0)) d' /\ SB (c_rel c) (bad (load_p d0)) d''.
+Proof. exact crash_safe. Qed.
+Print Assumptions C04_crash_states.
+
+(* ... and from ANY such disk the next launch (init with crash detection, then the query) selects no
+   patch, or one that is intact (exists, recorded size, signed if a key is configured), was not
+   banned before the interrupted call, and whose own launch was not in progress *)
+Theorem C04_next_launch_safe :
+  forall sha sigok (c : cfg) (bad0 : list N) (d : disk),
+    SB (c_rel c) bad0 d ->
+    match snd (next_launch sha sigok c d) with
+    | None => True
+    | Some n =>
+        intact sha sigok (c_key c) (fst (next_launch sha sigok c d)) n /\ ~ In n bad0 /\
+        (forall m, cb (load_p (norm c d)) = Some m -> m_num m <> n)
+    end.
+Proof. exact next_launch_safe. Qed.
+Print Assumptions C04_next_launch_safe.
+
+(* Second half.  Under ANY plan — death at any step or any single failing system call with execution
+   continuing — of any call from any state whose patches_state.json satisfies I-ban: the call returns
+   (the model is total), and whatever is selected afterwards, in this process and at the next launch,
+   is intact and not on the ban list *)
+Theorem C04_fault_safe :
+  forall sha sigok zdec base (c : cfg) (d0 : disk) (o : op) (pl : plan),
+    PJI d0 ->
+    let d' := disk_of (callM sha sigok zdec base c o pl 0%nat d0) in
+    IbanD d' /\
+    (forall d2 n, cs_next sha sigok c d' = (d2, Some n) ->
+                  intact sha sigok (c_key c) d2 n /\ ~ In n (bad (load_p d2))) /\
+    (forall d2 n, next_launch sha sigok c d' = (d2, Some n) ->
+                  intact sha sigok (c_key c) d2 n /\ ~ In n (bad (load_p d2))).
+Proof. exact fault_safe. Qed.
+Print Assumptions C04_fault_safe.
+
+(* First launch of another release (or with an unreadable state.json), under ANY plan: neither this
+   process nor the next launch hands out a patch — no state of the old release is ever selectable *)
+Theorem C04_release_change_safe :
+  forall sha sigok (c : cfg) (d : disk) (pl : plan),
+    ~ stable (c_rel c) d ->
+    let d' := disk_of (initM sha sigok c pl 0%nat d) in
+    snd (cs_next sha sigok c d') = None /\ snd (next_launch sha sigok c d') = None.
+Proof. exact release_change_safe. Qed.
+Print Assumptions C04_release_change_safe.
